@@ -11,6 +11,7 @@ import (
 	"fmt"
 	"os"
 	"reflect"
+	"strings"
 
 	jmespath "github.com/jmespath/go-jmespath"
 )
@@ -114,7 +115,7 @@ func cmdHistory(args []string) int {
 					o := direct(func() (interface{}, error) { return jp.Search(doc) })
 					calls++
 					isCanary := false
-					if *canary > 0 && calls%*canary == 0 && o.Kind == "ok" {
+					if *canary > 0 && calls%*canary == 0 && o.Kind == "ok" && !strings.Contains(mustJSON(allowed), "unspec") {
 						o = Obs{Kind: "ok", Value: "☃canary"}
 						isCanary = true
 						sum.CanariesIn++
